@@ -24,6 +24,8 @@ def cases(ctx):
     out += dc.random_cases(rng, n, 8 if q else 10, (0, 1, 2, 5), inners=("sq", "eu"), pens=(0, 0, 1, 2),
                            psi_prob=0.5)
     out += dc.random_cases(rng, n // 2, 8, (0, 1), inners=("sq",), pens=(0, 1), psi_prob=0.2)
+    # max_step: the path has to avoid the excluded cells
+    out += dc.random_cases(rng, n // 2, 7, (0, 1, 2, 5), inners=("sq", "eu"), pens=(0, 0, 1), mss=(2, 3, 4), psi_prob=0.2)
     out += ndim_cases(rng, n // 4, 5, RECT2, ("sq", "eu"), pens=(0, 1), psi_prob=0.3)
     # narrow windows on longer series: the shifted rows of the compact layout (regions C and D) are walked by the
     # C back-tracking only when 2*(window + max(0, l1-l2)) < l1 + 1
